@@ -112,3 +112,17 @@ package direct
 //@   ensures result.Headroom == Socks5PacketServerMessageHeadroom
 //@ func (Socks5PacketServerUnpacker).ServerUnpackerInfo
 //@   ensures result.Headroom == Socks5PacketClientMessageHeadroom
+
+// ---------------- construction of the direct ("simple tunnel") UDP server: the precondition of PackInPlace
+// above is a representation invariant that the constructors' callers must establish (property C18: no
+// accepted configuration crashes once traffic flows).
+
+//@ func NewDirectPacketServerPackUnpacker
+//@   requires targetAddrOnly ==> targetAddr.IsIP()
+//@   modifies nothing
+//@   ensures fresh(result) && result.targetAddr == targetAddr && result.targetAddrOnly == targetAddrOnly
+
+//@ func NewDirectUDPNATServer
+//@   requires targetAddrOnly ==> targetAddr.IsIP()
+//@   modifies nothing
+//@   ensures fresh(result) && fresh(result.p) && result.p.targetAddr == targetAddr && result.p.targetAddrOnly == targetAddrOnly
